@@ -1,0 +1,157 @@
+//go:build verif
+
+/*
+ * SPDX-License-Identifier: Apache-2.0
+ */
+
+package badger
+
+// Thin wrappers for the kv verification family (build tag "verif"): write blocking as
+// DropAll/DropPrefix/Close do it, and a read-only projection of the encryption state
+// (which data key and which IV every encrypted unit of every file uses).
+
+import (
+	"sort"
+
+	"github.com/dgraph-io/badger/v4/y"
+)
+
+// VerifKVBlockWrites runs the production blockWrite (first step of DropAll / DropPrefix /
+// Flatten): new writes are refused with ErrBlockedWrites, pending ones are drained.
+func (db *DB) VerifKVBlockWrites() error { return db.blockWrite() }
+
+// VerifKVUnblockWrites runs the production unblockWrite.
+func (db *DB) VerifKVUnblockWrites() { db.unblockWrite() }
+
+// VerifKVEncUnit is one encrypted unit (a table block, a table index, a log record).
+type VerifKVEncUnit struct {
+	File  string `json:"file"`
+	Kind  string `json:"kind"` // "block", "index", "rec"
+	KeyID uint64 `json:"keyId"`
+	IV    []byte `json:"iv"`
+}
+
+func verifKVLogUnits(lf *logFile, out []VerifKVEncUnit) ([]VerifKVEncUnit, error) {
+	if lf == nil || !lf.encryptionEnabled() {
+		return out, nil
+	}
+	_, err := lf.iterate(true, 0, func(e Entry, vp valuePointer) error {
+		out = append(out, VerifKVEncUnit{File: lf.path, Kind: "rec", KeyID: lf.keyID(), IV: lf.generateIV(vp.Offset)})
+		return nil
+	})
+	return out, err
+}
+
+// VerifKVEncUnits lists the (data key id, IV) pair of every encrypted block / index of
+// every table, and of every record of every value-log file and memtable WAL. It must be
+// called while no write is in flight.
+func (db *DB) VerifKVEncUnits() ([]VerifKVEncUnit, error) {
+	var out []VerifKVEncUnit
+	for _, l := range db.lc.levels {
+		l.RLock()
+		for _, t := range l.tables {
+			if t.KeyID() == 0 {
+				continue
+			}
+			for _, iv := range t.VerifKVBlockIVs() {
+				out = append(out, VerifKVEncUnit{File: t.Filename(), Kind: "block", KeyID: t.KeyID(), IV: iv})
+			}
+			out = append(out, VerifKVEncUnit{File: t.Filename(), Kind: "index", KeyID: t.KeyID(), IV: t.VerifKVIndexIV()})
+		}
+		l.RUnlock()
+	}
+	var err error
+	if !db.opt.InMemory {
+		db.vlog.filesLock.RLock()
+		fids := make([]uint32, 0, len(db.vlog.filesMap))
+		for fid := range db.vlog.filesMap {
+			fids = append(fids, fid)
+		}
+		sort.Slice(fids, func(i, j int) bool { return fids[i] < fids[j] })
+		for _, fid := range fids {
+			if out, err = verifKVLogUnits(db.vlog.filesMap[fid], out); err != nil {
+				break
+			}
+		}
+		db.vlog.filesLock.RUnlock()
+		if err != nil {
+			return out, err
+		}
+		db.lock.RLock()
+		defer db.lock.RUnlock()
+		if db.mt != nil {
+			if out, err = verifKVLogUnits(db.mt.wal, out); err != nil {
+				return out, err
+			}
+		}
+		for _, m := range db.imm {
+			if out, err = verifKVLogUnits(m.wal, out); err != nil {
+				return out, err
+			}
+		}
+	}
+	return out, nil
+}
+
+// VerifKVDataKeyIDs returns the ids of the data keys the registry knows, sorted.
+func (db *DB) VerifKVDataKeyIDs() []uint64 {
+	if db.registry == nil {
+		return nil
+	}
+	db.registry.RLock()
+	defer db.registry.RUnlock()
+	var out []uint64
+	for id := range db.registry.dataKeys {
+		out = append(out, id)
+	}
+	sort.Slice(out, func(i, j int) bool { return out[i] < out[j] })
+	return out
+}
+
+// VerifKVFileKeyIDs returns, per table / value-log file / WAL path, the data key id it is
+// encrypted with (0 = plain text).
+func (db *DB) VerifKVFileKeyIDs() map[string]uint64 {
+	out := map[string]uint64{}
+	for _, l := range db.lc.levels {
+		l.RLock()
+		for _, t := range l.tables {
+			out[t.Filename()] = t.KeyID()
+		}
+		l.RUnlock()
+	}
+	if !db.opt.InMemory {
+		db.vlog.filesLock.RLock()
+		for _, lf := range db.vlog.filesMap {
+			out[lf.path] = lf.keyID()
+		}
+		db.vlog.filesLock.RUnlock()
+		db.lock.RLock()
+		if db.mt != nil && db.mt.wal != nil {
+			out[db.mt.wal.path] = db.mt.wal.keyID()
+		}
+		for _, m := range db.imm {
+			if m.wal != nil {
+				out[m.wal.path] = m.wal.keyID()
+			}
+		}
+		db.lock.RUnlock()
+	}
+	return out
+}
+
+// VerifKVBatchSet writes raw entries (non-zero versions) through the production write path
+// db.batchSet, as value-log GC and BanNamespace do; used to place reserved-prefix
+// (!badger!) keys, which Txn.SetEntry refuses, into the memtable.
+func (db *DB) VerifKVBatchSet(entries []VerifEntry) error {
+	es := make([]*Entry, 0, len(entries))
+	for _, v := range entries {
+		es = append(es, &Entry{
+			Key:       y.KeyWithTs(v.Key, v.Version),
+			Value:     v.Value,
+			UserMeta:  v.UserMeta,
+			ExpiresAt: v.ExpiresAt,
+			meta:      v.Meta,
+		})
+	}
+	return db.batchSet(es)
+}
